@@ -122,10 +122,18 @@ def call_event(f, n, ivar):
 def body_events(f, stmts, ivar):
     """statements of a loop body -> Lean term : List Ev (over `e`, `noFork`, `wanted`)"""
     parts = []
-    for s in stmts:
+    for idx, s in enumerate(stmts):
         k = s.get("kind")
+        if k == "CompoundStmt" and len(stmts) == 1:
+            return body_events(f, s.get("inner", []), ivar)
         if k == "CompoundStmt":
             parts.append(body_events(f, s.get("inner", []), ivar))
+        elif k == "IfStmt" and not s.get("hasElse") and [x.get("kind") for x in (s["inner"][1].get("inner", []) if s["inner"][1].get("kind") == "CompoundStmt" else [s["inner"][1]])] == ["ContinueStmt"]:
+            # `if (c) continue;`: the rest of the body is for the entries for which c does not hold
+            c = cond(f, s["inner"][0], ivar)
+            rest = body_events(f, stmts[idx + 1:], ivar)
+            parts.append(f"(if {c} then [] else {rest})")
+            break
         elif k == "IfStmt":
             c = cond(f, s["inner"][0], ivar)
             th = body_events(f, [s["inner"][1]], ivar)
